@@ -235,6 +235,49 @@ func generate(w *mon.W) {
 			}
 		}
 	}
+	// 2..40 lets over four names, so that most of them redefine an earlier one
+	// (and some a parameter): the query sees the last definition of each
+	for n := 2; n <= 40; n++ {
+		for variant := 0; variant < 2; variant++ {
+			c := &Case{Params: map[string]string{}, Seed: int64(n), LetParens: 1, Pos: "where"}
+			if variant == 1 {
+				c.Params = map[string]string{"w0": "$1", "w2": "{n:Int64}"}
+				c.Pos = "extend"
+			}
+			for i := 0; i < n; i++ {
+				name := fmt.Sprintf("w%d", (i*3+variant)%4)
+				var x *E = Num(fmt.Sprint(100 + i))
+				if i%5 == 4 {
+					x = Bin("+", Name(fmt.Sprintf("w%d", (i*3+variant+1)%4)), Num("1")) // from another binding's current value
+					if i < 4 {
+						x = Num(fmt.Sprint(200 + i))
+					}
+				}
+				c.Lets = append(c.Lets, LetDef{name, x})
+			}
+			c.X = In(Name("ia"), Name("w0"), Name("w1"), Name("w2"), Name("w3"))
+			if variant == 1 {
+				c.X = Bin("+", Bin("+", Name("w0"), Name("w1")), Bin("*", Name("w2"), Name("w3")))
+			}
+			cc := c
+			w.Do(fmt.Sprint("shadow|", n, "|", variant), func(r *mon.R) { Check(cc, r) })
+		}
+	}
+	// binding names of every length up to a thousand characters
+	for _, L := range []int{1, 2, 7, 8, 9, 15, 16, 17, 31, 32, 33, 63, 64, 65, 127, 128, 129, 255, 256, 257, 1000} {
+		long := "n" + strings.Repeat("x", L-1)
+		for variant := 0; variant < 2; variant++ {
+			c := &Case{Params: map[string]string{}, Seed: int64(L), LetParens: 1, Pos: "where", X: Bin("==", Name("ia"), Name(long))}
+			if variant == 0 {
+				c.Lets = []LetDef{{long, Num("3")}, {"other", Bin("+", Name(long), Num("1"))}}
+				c.X = Bin("==", Name("ia"), Bin("+", Name(long), Name("other")))
+			} else {
+				c.Params = map[string]string{long: "$1"}
+			}
+			cc := c
+			w.Do(fmt.Sprint("longname|", L, "|", variant), func(r *mon.R) { Check(cc, r) })
+		}
+	}
 	// histories: the same let value text compiled with different earlier bindings, then with none
 	for ti, tmpl := range []func(a *E) *E{
 		func(a *E) *E { return Idx(StrLit("abc", false), a) },
